@@ -8,8 +8,15 @@ package gw
 import (
 	"bufio"
 	"bytes"
+	"crypto/ecdsa"
+	"crypto/elliptic"
+	"crypto/rand"
+	"crypto/tls"
+	"crypto/x509"
+	"crypto/x509/pkix"
 	"fmt"
 	"io"
+	"math/big"
 	"net"
 	"net/http"
 	"os"
@@ -400,4 +407,83 @@ func (g *GW) Routes() []string {
 	}
 	sort.Strings(out)
 	return out
+}
+
+// ListenTCP additionally serves the gateway on a loopback TCP port and returns its address.
+func (g *GW) ListenTCP() (string, error) {
+	ln, err := net.Listen("tcp", "127.0.0.1:0")
+	if err != nil {
+		return "", err
+	}
+	go func() { _ = g.App.Listener(ln) }()
+	return ln.Addr().String(), nil
+}
+
+// DoTCP sends the request to addr over a fresh TCP connection.
+func DoTCP(addr string, r *Req) *Resp {
+	start := time.Now()
+	c, err := net.DialTimeout("tcp", addr, 5*time.Second)
+	if err != nil {
+		return &Resp{Err: err}
+	}
+	defer c.Close()
+	_ = c.SetDeadline(time.Now().Add(Timeout))
+	// a server may answer (and close) before it has read the whole body: a failed write is only
+	// an error when no response can be read either
+	_, werr := c.Write(r.Raw())
+	resp := readResp(c, r.Method)
+	if resp.Err != nil && werr != nil {
+		return &Resp{Err: werr}
+	}
+	resp.Elapsed = time.Since(start)
+	return resp
+}
+
+// ListenTLS serves the gateway on a loopback port with a throw-away self-signed certificate.
+func (g *GW) ListenTLS() (string, error) {
+	cert, err := selfSigned()
+	if err != nil {
+		return "", err
+	}
+	ln, err := net.Listen("tcp", "127.0.0.1:0")
+	if err != nil {
+		return "", err
+	}
+	tl := tls.NewListener(ln, &tls.Config{Certificates: []tls.Certificate{cert}})
+	go func() { _ = g.App.Listener(tl) }()
+	return ln.Addr().String(), nil
+}
+
+func selfSigned() (tls.Certificate, error) {
+	key, err := ecdsa.GenerateKey(elliptic.P256(), rand.Reader)
+	if err != nil {
+		return tls.Certificate{}, err
+	}
+	tmpl := &x509.Certificate{SerialNumber: big.NewInt(1), Subject: pkix.Name{CommonName: "verif-endpoint"}, NotBefore: time.Now().Add(-time.Hour), NotAfter: time.Now().Add(240 * time.Hour),
+		KeyUsage: x509.KeyUsageDigitalSignature | x509.KeyUsageCertSign, ExtKeyUsage: []x509.ExtKeyUsage{x509.ExtKeyUsageServerAuth}, IPAddresses: []net.IP{net.IPv4(127, 0, 0, 1)}, IsCA: true, BasicConstraintsValid: true}
+	der, err := x509.CreateCertificate(rand.Reader, tmpl, tmpl, &key.PublicKey, key)
+	if err != nil {
+		return tls.Certificate{}, err
+	}
+	return tls.Certificate{Certificate: [][]byte{der}, PrivateKey: key}, nil
+}
+
+// DoTLS sends the request to addr over a fresh TLS connection (certificate not verified).
+func DoTLS(addr string, r *Req) *Resp {
+	start := time.Now()
+	c, err := tls.DialWithDialer(&net.Dialer{Timeout: 5 * time.Second}, "tcp", addr, &tls.Config{InsecureSkipVerify: true})
+	if err != nil {
+		return &Resp{Err: err}
+	}
+	defer c.Close()
+	_ = c.SetDeadline(time.Now().Add(Timeout))
+	// a server may answer (and close) before it has read the whole body: a failed write is only
+	// an error when no response can be read either
+	_, werr := c.Write(r.Raw())
+	resp := readResp(c, r.Method)
+	if resp.Err != nil && werr != nil {
+		return &Resp{Err: werr}
+	}
+	resp.Elapsed = time.Since(start)
+	return resp
 }
